@@ -186,7 +186,8 @@ Section Model.
     | BLower => negb (Qeq_bool (ic_lo c) (- M)) && (Qeq_bool (ic_up c) M || Qle_bool (ic_lo c) (ic_up c))
     | BUpper => negb (Qeq_bool (ic_up c) M) && (Qeq_bool (ic_lo c) (- M) || Qle_bool (ic_lo c) (ic_up c))
     | BFree => (Qeq_bool (ic_lo c) (- M) || Qle_bool (ic_lo c) 0) && (Qeq_bool (ic_up c) M || Qle_bool 0 (ic_up c))
-    | _ => true
+    | BBasic => true
+    | BOther => false
     end.
   Definition nonbasic_ok : bool := forallb nb_ok1 nbl.
 End Model.
